@@ -179,6 +179,28 @@ func decorations(b base, thorough bool) []decor {
 			}
 		}
 	}
+	// an embedded struct that is itself excluded (dash tag, or an unexported
+	// type): none of its fields may be promoted
+	for si, s := range b.Structs {
+		for pos := 0; pos <= len(s.Fields); pos++ {
+			if !thorough && pos != 0 && pos != len(s.Fields) {
+				continue
+			}
+			for vi, emb := range []fdef{
+				{Type: "ExclEmb `parquet:\"-\"`", Embedded: true},
+				{Type: "exclEmb", Embedded: true},
+			} {
+				st := cloneStructs(b.Structs)
+				fs := append([]fdef(nil), st[si].Fields[:pos]...)
+				fs = append(fs, emb)
+				fs = append(fs, st[si].Fields[pos:]...)
+				st[si].Fields = fs
+				tn := []string{"ExclEmb", "exclEmb"}[vi]
+				st = append(st, sdef{tn, []fdef{f("Zed", "int32", ""), f("Why", "*string", "")}})
+				out = append(out, decor{Desc: fmt.Sprintf("excludedembedded:%s@%s.%d", tn, s.Name, pos), Structs: st})
+			}
+		}
+	}
 	// other struct tags next to the parquet tag: an excluded field whose dash
 	// tag is surrounded by other keys stays excluded, and adding foreign keys
 	// to a column's tag changes nothing
